@@ -157,6 +157,18 @@ def gen_case(rng):
                 argv.append({"asg": [d["key"], "item", rng.choice(ITEMS), tok()], "style": style})
             else:
                 argv.append({"asg": [d["key"], "set", gen_value(rng, d["kind"], tok)], "style": style})
+        # the same config FILE given again later on the command line (same path): it must be applied again at its
+        # second position, whatever was given in between
+        files = [i for i, it in enumerate(argv) if "cfg" in it and it["as"] == "file"]
+        if files and rng.random() < 0.5:
+            i = rng.choice(files)
+            argv[i]["fid"] = 1
+            again = dict(argv[i], style=rng.choice(["eq", "space"]))
+            argv.insert(rng.randint(i + 1, len(argv)), again)
+        # ... or the file named by the config environment variable given again with --cfg
+        if envcfg is not None and envcfg["as"] == "file" and rng.random() < 0.3:
+            argv.insert(rng.randint(0, len(argv)), {"cfg": envcfg["doc"], "as": "file", "fmt": envcfg["fmt"], "fid": "envcfg",
+                                                     "style": rng.choice(["eq", "space"])})
         case["entry"] = {"kind": "args", "argv": argv}
     elif r < 0.65:
         case["entry"] = {"kind": "env", "as_dict": rng.random() < 0.5}
